@@ -76,9 +76,12 @@ package mask
 //@ func (*Plugin).traverseTree
 //@   option allow-exit yes
 //@   requires len(p.hasMasksIgnoreFields) == len(p.config.Masks) && len(p.hasMasksProcessFields) == len(p.config.Masks) && len(p.maskApplyCount) == len(p.config.Masks)
+//@   requires forall i, a, b :: 0 <= i && i < len(p.config.Masks) && 0 <= a && a < len(p.config.Masks[i].MatchRules) && 0 <= b && b < len(p.config.Masks[i].MatchRules[a].Rules) ==> p.config.Masks[i].MatchRules[a].Rules[b].prepared && p.config.Masks[i].MatchRules[a].Rules[b].maxValueSize >= 0 && (p.config.Masks[i].MatchRules[a].Rules[b].Mode == matchrule.ModeContains || p.config.Masks[i].MatchRules[a].Rules[b].Mode == matchrule.ModePrefix || p.config.Masks[i].MatchRules[a].Rules[b].Mode == matchrule.ModeSuffix)
 //@   ghost ghas bool = false
 //@   ghost gv int = 0
 //@   loop 1 invariant !shouldCheckFmNode ==> nextFmNode == curFmNode
+//@   loop 1 invariant forall i, a, b :: 0 <= i && i < len(p.config.Masks) && 0 <= a && a < len(p.config.Masks[i].MatchRules) && 0 <= b && b < len(p.config.Masks[i].MatchRules[a].Rules) ==> p.config.Masks[i].MatchRules[a].Rules[b].prepared && p.config.Masks[i].MatchRules[a].Rules[b].maxValueSize >= 0 && (p.config.Masks[i].MatchRules[a].Rules[b].Mode == matchrule.ModeContains || p.config.Masks[i].MatchRules[a].Rules[b].Mode == matchrule.ModePrefix || p.config.Masks[i].MatchRules[a].Rules[b].Mode == matchrule.ModeSuffix)
+//@   loop 2 invariant forall i, a, b :: 0 <= i && i < len(p.config.Masks) && 0 <= a && a < len(p.config.Masks[i].MatchRules) && 0 <= b && b < len(p.config.Masks[i].MatchRules[a].Rules) ==> p.config.Masks[i].MatchRules[a].Rules[b].prepared && p.config.Masks[i].MatchRules[a].Rules[b].maxValueSize >= 0 && (p.config.Masks[i].MatchRules[a].Rules[b].Mode == matchrule.ModeContains || p.config.Masks[i].MatchRules[a].Rules[b].Mode == matchrule.ModePrefix || p.config.Masks[i].MatchRules[a].Rules[b].Mode == matchrule.ModeSuffix)
 //@   assert at "if p.traverseTree(event, nextNode, nextFmNode) {" shouldCheckFmNode && !ghas ==> nextFmNode == p.emptyFMNode
 //@   assert at "if p.traverseTree(event, nextNode, nextFmNode) {" shouldCheckFmNode && ghas ==> ref(nextFmNode) == gv
 //@   assert at "if p.traverseTree(event, nextNode, nextFmNode) {" !shouldCheckFmNode ==> nextFmNode == curFmNode
@@ -86,9 +89,9 @@ package mask
 //@     set ghas := ok
 //@     set gv := ref(v)
 //@   callee traverseTree(e, n, fm) (r)
-//@     preserves Plugin, fieldMasksNode
+//@     preserves Plugin, fieldMasksNode, Mask, RuleSet, Rule
 //@   callee processMask(e, n, fm) (r)
-//@     preserves Plugin, fieldMasksNode
+//@     preserves Plugin, fieldMasksNode, Mask, RuleSet, Rule
 //@   callee IsField() (r)
 //@     pure
 //@   callee IsArray() (r)
@@ -121,6 +124,8 @@ package mask
 //@   ghost napp int = 0
 //@   ghost glen int = 0
 //@   requires len(p.hasMasksIgnoreFields) == len(p.config.Masks) && len(p.hasMasksProcessFields) == len(p.config.Masks) && len(p.maskApplyCount) == len(p.config.Masks)
+//@   requires forall i, a, b :: 0 <= i && i < len(p.config.Masks) && 0 <= a && a < len(p.config.Masks[i].MatchRules) && 0 <= b && b < len(p.config.Masks[i].MatchRules[a].Rules) ==> p.config.Masks[i].MatchRules[a].Rules[b].prepared && p.config.Masks[i].MatchRules[a].Rules[b].maxValueSize >= 0 && (p.config.Masks[i].MatchRules[a].Rules[b].Mode == matchrule.ModeContains || p.config.Masks[i].MatchRules[a].Rules[b].Mode == matchrule.ModePrefix || p.config.Masks[i].MatchRules[a].Rules[b].Mode == matchrule.ModeSuffix)
+//@   loop 1 invariant forall i, a, b :: 0 <= i && i < len(p.config.Masks) && 0 <= a && a < len(p.config.Masks[i].MatchRules) && 0 <= b && b < len(p.config.Masks[i].MatchRules[a].Rules) ==> p.config.Masks[i].MatchRules[a].Rules[b].prepared && p.config.Masks[i].MatchRules[a].Rules[b].maxValueSize >= 0 && (p.config.Masks[i].MatchRules[a].Rules[b].Mode == matchrule.ModeContains || p.config.Masks[i].MatchRules[a].Rules[b].Mode == matchrule.ModePrefix || p.config.Masks[i].MatchRules[a].Rules[b].Mode == matchrule.ModeSuffix)
 //@   loop 1 invariant napp >= 0 && (napp > 0 ==> len(p.sourceBuf) == glen) && len(value) > 0
 //@   loop 1 invariant napp == 0 && valueCopied ==> len(p.sourceBuf) == len(value)
 //@   loop 1 invariant napp > 0 ==> valueCopied
@@ -129,17 +134,17 @@ package mask
 //@   callee maskValue(v, b) (r, ok)
 //@     requires napp == 0 ==> len(v) == len(value)
 //@     requires napp > 0 ==> len(v) == glen
-//@     preserves Plugin, Mask, []bool, int, []int
+//@     preserves Plugin, Mask, []bool, int, []int, RuleSet, Rule
 //@     set glen := ite(ok, len(r), glen)
 //@     set napp := napp + ite(ok, 1, 0)
 //@   callee checkMatchRules(v) (r)
-//@     preserves Plugin, Mask, []bool, int, []int
+//@     preserves Plugin, Mask, []bool, int, []int, RuleSet, Rule
 //@   callee AsBytes() (r)
 //@     pure
 //@   callee AddFieldNoAlloc(r, n) (x)
-//@     preserves Plugin, Mask, []bool, int, []int
+//@     preserves Plugin, Mask, []bool, int, []int, RuleSet, Rule
 //@   callee MutateToString(s) (x)
-//@     preserves Plugin, Mask, []bool, int, []int
+//@     preserves Plugin, Mask, []bool, int, []int, RuleSet, Rule
 
 // Do, fast path (a plugin-level process_fields list and no mask-specific lists): every
 // listed field that exists in the event is traversed (masked), whatever the outcome
@@ -151,7 +156,10 @@ package mask
 //@   ghost nfound int = 0
 //@   ghost ntrav int = 0
 //@   requires event != nil
+//@   requires forall i, a, b :: 0 <= i && i < len(p.config.Masks) && 0 <= a && a < len(p.config.Masks[i].MatchRules) && 0 <= b && b < len(p.config.Masks[i].MatchRules[a].Rules) ==> p.config.Masks[i].MatchRules[a].Rules[b].prepared && p.config.Masks[i].MatchRules[a].Rules[b].maxValueSize >= 0 && (p.config.Masks[i].MatchRules[a].Rules[b].Mode == matchrule.ModeContains || p.config.Masks[i].MatchRules[a].Rules[b].Mode == matchrule.ModePrefix || p.config.Masks[i].MatchRules[a].Rules[b].Mode == matchrule.ModeSuffix)
 //@   requires len(p.hasMasksIgnoreFields) == len(p.config.Masks) && len(p.hasMasksProcessFields) == len(p.config.Masks) && len(p.maskApplyCount) == len(p.config.Masks)
+//@   loop 1 invariant forall i, a, b :: 0 <= i && i < len(p.config.Masks) && 0 <= a && a < len(p.config.Masks[i].MatchRules) && 0 <= b && b < len(p.config.Masks[i].MatchRules[a].Rules) ==> p.config.Masks[i].MatchRules[a].Rules[b].prepared && p.config.Masks[i].MatchRules[a].Rules[b].maxValueSize >= 0 && (p.config.Masks[i].MatchRules[a].Rules[b].Mode == matchrule.ModeContains || p.config.Masks[i].MatchRules[a].Rules[b].Mode == matchrule.ModePrefix || p.config.Masks[i].MatchRules[a].Rules[b].Mode == matchrule.ModeSuffix)
+//@   loop 2 invariant forall i, a, b :: 0 <= i && i < len(p.config.Masks) && 0 <= a && a < len(p.config.Masks[i].MatchRules) && 0 <= b && b < len(p.config.Masks[i].MatchRules[a].Rules) ==> p.config.Masks[i].MatchRules[a].Rules[b].prepared && p.config.Masks[i].MatchRules[a].Rules[b].maxValueSize >= 0 && (p.config.Masks[i].MatchRules[a].Rules[b].Mode == matchrule.ModeContains || p.config.Masks[i].MatchRules[a].Rules[b].Mode == matchrule.ModePrefix || p.config.Masks[i].MatchRules[a].Rules[b].Mode == matchrule.ModeSuffix)
 //@   loop 1 invariant rangeindex < len(p.config.Masks) && len(p.hasMasksIgnoreFields) == len(p.config.Masks) && len(p.hasMasksProcessFields) == len(p.config.Masks) && len(p.maskApplyCount) == len(p.config.Masks)
 //@   loop 2 invariant ntrav == nfound && len(p.hasMasksIgnoreFields) == len(p.config.Masks) && len(p.hasMasksProcessFields) == len(p.config.Masks) && len(p.maskApplyCount) == len(p.config.Masks)
 //@   loop 4 invariant rangeindex#4 < len(p.config.Masks) && len(p.maskApplyCount) == len(p.config.Masks)
@@ -159,7 +167,7 @@ package mask
 //@     pure
 //@     set nfound := ite(n != nil, nfound + 1, nfound)
 //@   callee traverseTree(e, n, fm) (r)
-//@     preserves Plugin, Config, []Mask
+//@     preserves Plugin, Config, []Mask, Mask, RuleSet, Rule
 //@     set ntrav := ntrav + 1
 //@   callee Check(d) (r)
 //@     pure
@@ -184,7 +192,7 @@ package mask
 //@   callee String(k, v) (f)
 //@     pure
 //@   callee applyMaskMetric(m, e, d)
-//@     preserves Plugin, Config, []Mask
+//@     preserves Plugin, Config, []Mask, Mask, RuleSet, Rule
 
 // The leaf callbacks of gatherFieldMasksTree: a leaf that has no mask set yet gets a
 // map allocated for it alone (a set shared between leaves would make every later
@@ -193,8 +201,270 @@ package mask
 
 //@ func (*Plugin).gatherFieldMasksTree$1
 //@   requires n != nil
+//@   modifies n.ignoreMasks
 //@   ensures old(isnil(n.ignoreMasks)) ==> fresh(n.ignoreMasks)
+//@   ensures !old(isnil(n.ignoreMasks)) ==> n.ignoreMasks == old(n.ignoreMasks)
+//@   callee mapupdate:ignoreMasks(k, v)
+//@     requires k == i
+//@   callee mapupdate:processMasks(k, v)
+//@     requires false
 
 //@ func (*Plugin).gatherFieldMasksTree$2
 //@   requires n != nil
+//@   modifies n.processMasks
 //@   ensures old(isnil(n.processMasks)) ==> fresh(n.processMasks)
+//@   ensures !old(isnil(n.processMasks)) ==> n.processMasks == old(n.processMasks)
+//@   callee mapupdate:processMasks(k, v)
+//@     requires k == i
+//@   callee mapupdate:ignoreMasks(k, v)
+//@     requires false
+
+// The leaf callbacks of the plugin-level lists: the ignore list marks the leaf as
+// ignored, the process list as processed - that mark and nothing else of the node.
+
+//@ func (*Plugin).gatherFieldMasksTree$3
+//@   requires n != nil
+//@   modifies n.globalIgnore
+//@   ensures n.globalIgnore
+
+//@ func (*Plugin).gatherFieldMasksTree$4
+//@   requires n != nil
+//@   modifies n.globalProcess
+//@   ensures n.globalProcess
+
+// compileMask (C17: "every configured mask is compiled with its groups sorted, unique
+// and in range"; this is what maskValue requires and what processMask used to assume).
+// For a mask with a regular expression: the expression is compiled, every selected
+// group number lies within 0..NumSubexp, the list is strictly increasing (sorted and
+// without repetition: maskValue writes the groups in text order), and it still selects
+// what was configured: the same set of numbers, or group 0 (the whole match) when the
+// configuration names group 0.  The masking mode follows replace_word / cut_values
+// (both at once is refused), and a mask without do_if is always in use.  The
+// configuration itself (re, replace_word, max_count, cut_values) is not altered.
+
+//@ func compileMask
+//@   option allow-exit yes
+//@   preserves Plugin
+//@   requires m != nil
+//@   ensures m.MatchRules == old(m.MatchRules)
+//@   ensures forall a :: 0 <= a && a < len(m.MatchRules) ==> m.MatchRules[a].Rules == old(m.MatchRules[a].Rules) && m.MatchRules[a].Cond == old(m.MatchRules[a].Cond)
+//@   ensures old(forall a, b :: 0 <= a && a < b && b < len(m.MatchRules) ==> ref(m.MatchRules[a].Rules) != ref(m.MatchRules[b].Rules)) ==> forall a, b :: 0 <= a && a < len(m.MatchRules) && 0 <= b && b < len(m.MatchRules[a].Rules) ==> m.MatchRules[a].Rules[b].prepared && 0 <= m.MatchRules[a].Rules[b].minValueSize && m.MatchRules[a].Rules[b].minValueSize <= m.MatchRules[a].Rules[b].maxValueSize && m.MatchRules[a].Rules[b].Mode == old(m.MatchRules[a].Rules[b].Mode) && m.MatchRules[a].Rules[b].Invert == old(m.MatchRules[a].Rules[b].Invert)
+//@   ensures m.Re == old(m.Re) && m.ReplaceWord == old(m.ReplaceWord) && m.MaxCount == old(m.MaxCount) && m.CutValues == old(m.CutValues)
+//@   ensures m.Re != "" ==> m.Re_ != nil && allrange(m.Groups, 0, uf_nsub(m.Re_) + 1) && increasing(m.Groups)
+//@   ensures m.Re != "" && old(nochr(m.Groups, 0)) ==> len(m.Groups) == old(len(m.Groups)) && up_sortedperm(old(m.Groups), m.Groups)
+//@   ensures m.Re != "" && !old(nochr(m.Groups, 0)) ==> !nochr(m.Groups, 0)
+//@   ensures m.Re == "" ==> m.Groups == old(m.Groups) && unchanged(m.Groups)
+//@   ensures m.mode == ite(m.ReplaceWord != "", modeReplace, ite(m.CutValues, modeCut, modeMask))
+//@   ensures !(m.ReplaceWord != "" && m.CutValues)
+//@   ensures old(isnil(m.DoIfCheckerMap)) ==> m.use
+//@   loop 1 invariant m.MatchRules == old(m.MatchRules) && rangeindex < len(m.MatchRules)
+//@   loop 1 invariant forall a :: 0 <= a && a < len(m.MatchRules) ==> m.MatchRules[a].Rules == old(m.MatchRules[a].Rules) && m.MatchRules[a].Cond == old(m.MatchRules[a].Cond)
+//@   loop 1 invariant old(forall a, b :: 0 <= a && a < b && b < len(m.MatchRules) ==> ref(m.MatchRules[a].Rules) != ref(m.MatchRules[b].Rules)) ==> forall a, b :: 0 <= a && a <= rangeindex && 0 <= b && b < len(m.MatchRules[a].Rules) ==> m.MatchRules[a].Rules[b].prepared && 0 <= m.MatchRules[a].Rules[b].minValueSize && m.MatchRules[a].Rules[b].minValueSize <= m.MatchRules[a].Rules[b].maxValueSize && m.MatchRules[a].Rules[b].Mode == old(m.MatchRules[a].Rules[b].Mode) && m.MatchRules[a].Rules[b].Invert == old(m.MatchRules[a].Rules[b].Invert)
+//@   loop 1 invariant old(forall a, b :: 0 <= a && a < b && b < len(m.MatchRules) ==> ref(m.MatchRules[a].Rules) != ref(m.MatchRules[b].Rules)) ==> forall a, b :: rangeindex < a && a < len(m.MatchRules) && 0 <= b && b < len(m.MatchRules[a].Rules) ==> m.MatchRules[a].Rules[b].Mode == old(m.MatchRules[a].Rules[b].Mode) && m.MatchRules[a].Rules[b].Invert == old(m.MatchRules[a].Rules[b].Invert)
+//@   loop 2 invariant true
+//@   callee regexp.Compile(s) (re, err)
+//@     requires s == m.Re
+//@     pure
+//@     ensures err == nil ==> re != nil
+//@   callee sort.Ints(x)
+//@     modifies x
+//@     ensures nondecreasing(x)
+//@     ensures old(distinct(x)) ==> distinct(x)
+//@     ensures old(allrange(x, 0, uf_nsub(m.Re_) + 1)) ==> allrange(x, 0, uf_nsub(m.Re_) + 1)
+//@     ensures old(nochr(x, 0)) == nochr(x, 0)
+//@     ensures up_sortedperm(old(x), x)
+//@   callee Prepare()
+//@     modifies rs.Rules[:]
+//@   callee NewFromMap(mp) (c, err)
+//@     pure
+
+// checkMatchRules (C17: "match rules"; cfg/matchrule/README: rule sets are "always
+// combined with logical or"; a mask without match rules applies to every value).
+// Stated over the answers of the rule sets in list order: nset sets were asked, each
+// once, the k-th asked being m.MatchRules[k], all with the value handed in; the answer
+// is the disjunction of theirs, and a negative one is only given after all were asked.
+// Requires what compileMask establishes: every rule of every set is prepared.
+
+//@ func (*Mask).checkMatchRules
+//@   ghost nset int = 0
+//@   ghost anyset bool = false
+//@   requires forall a, b :: 0 <= a && a < len(m.MatchRules) && 0 <= b && b < len(m.MatchRules[a].Rules) ==> m.MatchRules[a].Rules[b].prepared && m.MatchRules[a].Rules[b].maxValueSize >= 0 && (m.MatchRules[a].Rules[b].Mode == matchrule.ModeContains || m.MatchRules[a].Rules[b].Mode == matchrule.ModePrefix || m.MatchRules[a].Rules[b].Mode == matchrule.ModeSuffix)
+//@   pure
+//@   ensures len(m.MatchRules) == 0 ==> result
+//@   ensures len(m.MatchRules) > 0 ==> result == anyset
+//@   ensures !result ==> nset == len(m.MatchRules)
+//@   loop 1 invariant nset == rangeindex + 1 && rangeindex < len(m.MatchRules) && !anyset
+//@   callee Match(d) (r)
+//@     requires ref(recv) == ref(m.MatchRules) && off(recv) == off(m.MatchRules) + nset && nset < len(m.MatchRules) && d == value
+//@     set anyset := anyset || r
+//@     set nset := nset + 1
+
+// compileMasks (C17: "every configured mask is compiled"): every mask of the list is
+// handed to compileMask, each exactly once, the k-th call compiling masks[k] in place,
+// and the list handed back is the list handed in.  Before the first mask is compiled
+// all masks have passed the max_count / replace_word check (a replace word is not cut
+// to max_count asterisks: the two together have no meaning and are refused).
+// Not derivable here: the conjunction "every mask satisfies compileMask's postcondition"
+// - compileMask's footprint (its own record, its group list, the rules of its rule
+// sets) cannot be written as a modifies clause, so compiling mask k+1 formally forgets
+// mask k; that masks do not share group lists / rule sets is a fact about the decoded
+// configuration.
+
+//@ func compileMasks
+//@   option allow-exit yes
+//@   preserves Plugin
+//@   ghost ncomp int = 0
+//@   ensures ncomp == len(masks)
+//@   ensures result == masks
+//@   loop 1 invariant forall k :: 0 <= k && k <= rangeindex ==> !(masks[k].MaxCount > 0 && masks[k].ReplaceWord != "")
+//@   loop 2 invariant ncomp == rangeindex#2 + 1 && rangeindex#2 < len(masks)
+//@   loop 2 invariant ncomp == 0 ==> forall k :: 0 <= k && k < len(masks) ==> !(masks[k].MaxCount > 0 && masks[k].ReplaceWord != "")
+//@   callee compileMask(mm, l)
+//@     requires ref(mm) == ref(masks) && off(mm) == off(masks) + ncomp && ncomp < len(masks)
+//@     requires ncomp == 0 ==> forall k :: 0 <= k && k < len(masks) ==> !(masks[k].MaxCount > 0 && masks[k].ReplaceWord != "")
+//@     set ncomp := ncomp + 1
+
+// gatherFieldPaths (C17: "process_fields ... cover exactly the configured paths"; the
+// fast path of Do walks p.fieldPaths): the plugin-level list that is configured - the
+// ignore list or the process list, both at once is an error and nothing is parsed - is
+// parsed exactly once, as a whole, and p.fieldPaths becomes exactly the parser's result;
+// a parse error is handed on (never swallowed); with no list nothing is parsed and
+// nothing else of the plugin is written in any case.
+
+//@ func (*Plugin).gatherFieldPaths
+//@   ghost npar int = 0
+//@   ghost gerr bool = false
+//@   ghost grref int = 0
+//@   ghost groff int = 0
+//@   ghost grlen int = 0
+//@   modifies p.fieldPaths
+//@   ensures len(p.config.IgnoreFields) > 0 && len(p.config.ProcessFields) > 0 ==> result != nil
+//@   ensures len(p.config.IgnoreFields) == 0 && len(p.config.ProcessFields) == 0 ==> result == nil && p.fieldPaths == old(p.fieldPaths)
+//@   ensures (len(p.config.IgnoreFields) > 0) == (len(p.config.ProcessFields) > 0) ==> npar == 0
+//@   ensures (len(p.config.IgnoreFields) > 0) != (len(p.config.ProcessFields) > 0) ==> npar == 1 && (result != nil) == gerr
+//@   ensures (len(p.config.IgnoreFields) > 0) != (len(p.config.ProcessFields) > 0) && result == nil ==> ref(p.fieldPaths) == grref && off(p.fieldPaths) == groff && len(p.fieldPaths) == grlen
+//@   callee ParseNestedFields(f) (r, e)
+//@     requires npar == 0
+//@     requires len(p.config.IgnoreFields) > 0 ==> f == p.config.IgnoreFields
+//@     requires len(p.config.IgnoreFields) == 0 ==> f == p.config.ProcessFields
+//@     pure
+//@     set npar := npar + 1
+//@     set gerr := e != nil
+//@     set grref := ref(r)
+//@     set groff := off(r)
+//@     set grlen := len(r)
+
+// gatherFieldMasksTree (C17: "every ignored or non-processed field ... unchanged",
+// "process_fields / ignore_fields trees cover exactly the configured paths").
+// Refused: a plugin-level ignore list together with a process list, or both for one mask.
+// Otherwise, for every mask k: hasMasksIgnoreFields[k] / hasMasksProcessFields[k] say
+// exactly whether the mask has such a list (processMask selects the lists by these
+// flags: a flag set without a list would stop the mask everywhere - the secret leaks -
+// a list without the flag would be ignored), both arrays have one entry per mask;
+// the plugin-level lists are applied exactly when some mask has no list of its own.
+// Every list that is parsed is a whole configured list that is not empty - in the loop
+// over the masks a list of the current mask, never a plugin-level one, afterwards the
+// plugin-level lists that are in force (a mask never has both lists, so the one that
+// is not empty is the one meant) - and the parser's result, nothing else, is added to
+// one and the same tree, one addFieldsToTree per parse, before the next list is parsed; that tree becomes fieldMasksRoot exactly when some list is in force,
+// with a separate node as the "nothing listed here" node.  The flags are only ever set
+// (a plugin is started once, on a zeroed Plugin): their exact values are stated for
+// flags that were all false on entry.  The leaf callbacks are
+// under contract below ($1..$4, in source order: mask ignore, mask process, global
+// ignore, global process).
+
+//@ func (*Plugin).gatherFieldMasksTree
+//@   ghost npar int = 0
+//@   ghost nadd int = 0
+//@   ghost gprref int = 0
+//@   ghost gproff int = 0
+//@   ghost gprlen int = 0
+//@   ghost groot int = 0
+//@   ghost nglob int = 0
+//@   modifies p.hasMasksIgnoreFields, p.hasMasksProcessFields, p.hasMaskSpecificFieldsList, p.hasProcessOrIgnoreFields, p.hasGlobalIgnoreFields, p.hasGlobalProcessFields, p.fieldMasksRoot, p.emptyFMNode
+//@   ensures len(p.config.IgnoreFields) > 0 && len(p.config.ProcessFields) > 0 ==> result != nil
+//@   ensures (exists k :: 0 <= k && k < len(p.config.Masks) && len(p.config.Masks[k].IgnoreFields) > 0 && len(p.config.Masks[k].ProcessFields) > 0) ==> result != nil
+//@   ensures result == nil ==> nadd == npar
+//@   ensures result == nil && !old(p.hasMaskSpecificFieldsList) && !old(p.hasGlobalIgnoreFields) && !old(p.hasGlobalProcessFields) && !old(p.hasProcessOrIgnoreFields) ==> nglob == ite(p.hasGlobalIgnoreFields, 1, 0) + ite(p.hasGlobalProcessFields, 1, 0)
+//@   ensures result == nil ==> len(p.hasMasksIgnoreFields) == len(p.config.Masks) && len(p.hasMasksProcessFields) == len(p.config.Masks)
+//@   ensures result == nil ==> forall k :: 0 <= k && k < len(p.config.Masks) ==> p.hasMasksIgnoreFields[k] == (len(p.config.Masks[k].IgnoreFields) > 0) && p.hasMasksProcessFields[k] == (len(p.config.Masks[k].ProcessFields) > 0)
+//@   ensures result == nil ==> forall k :: 0 <= k && k < len(p.config.Masks) && (len(p.config.Masks[k].IgnoreFields) > 0 || len(p.config.Masks[k].ProcessFields) > 0) ==> p.hasMaskSpecificFieldsList
+//@   ensures result == nil && !old(p.hasMaskSpecificFieldsList) && !old(p.hasGlobalIgnoreFields) && !old(p.hasGlobalProcessFields) && !old(p.hasProcessOrIgnoreFields) && p.hasMaskSpecificFieldsList ==> exists k :: 0 <= k && k < len(p.config.Masks) && (len(p.config.Masks[k].IgnoreFields) > 0 || len(p.config.Masks[k].ProcessFields) > 0)
+//@   ensures result == nil && !old(p.hasMaskSpecificFieldsList) && !old(p.hasGlobalIgnoreFields) && !old(p.hasGlobalProcessFields) && !old(p.hasProcessOrIgnoreFields) ==> p.hasGlobalIgnoreFields == (len(p.config.IgnoreFields) > 0 && exists k :: 0 <= k && k < len(p.config.Masks) && !p.hasMasksIgnoreFields[k] && !p.hasMasksProcessFields[k])
+//@   ensures result == nil && !old(p.hasMaskSpecificFieldsList) && !old(p.hasGlobalIgnoreFields) && !old(p.hasGlobalProcessFields) && !old(p.hasProcessOrIgnoreFields) ==> p.hasGlobalProcessFields == (len(p.config.ProcessFields) > 0 && exists k :: 0 <= k && k < len(p.config.Masks) && !p.hasMasksIgnoreFields[k] && !p.hasMasksProcessFields[k])
+//@   ensures result == nil && !old(p.hasMaskSpecificFieldsList) && !old(p.hasGlobalIgnoreFields) && !old(p.hasGlobalProcessFields) && !old(p.hasProcessOrIgnoreFields) ==> p.hasProcessOrIgnoreFields == (p.hasMaskSpecificFieldsList || p.hasGlobalIgnoreFields || p.hasGlobalProcessFields)
+//@   ensures result == nil && p.hasProcessOrIgnoreFields ==> p.fieldMasksRoot != nil && freshin(p.fieldMasksRoot) && p.emptyFMNode != nil && p.emptyFMNode != p.fieldMasksRoot
+//@   ensures result == nil && p.hasProcessOrIgnoreFields && nadd > 0 ==> ref(p.fieldMasksRoot) == groot
+//@   loop 1 invariant nglob == 0 && nadd == npar && rangeindex < len(p.config.Masks) && len(p.hasMasksIgnoreFields) == len(p.config.Masks) && len(p.hasMasksProcessFields) == len(p.config.Masks) && root != nil && (nadd > 0 ==> ref(root) == groot)
+//@   loop 1 invariant forall k :: 0 <= k && k <= rangeindex ==> p.hasMasksIgnoreFields[k] == (len(p.config.Masks[k].IgnoreFields) > 0) && p.hasMasksProcessFields[k] == (len(p.config.Masks[k].ProcessFields) > 0) && !(len(p.config.Masks[k].IgnoreFields) > 0 && len(p.config.Masks[k].ProcessFields) > 0)
+//@   loop 1 invariant forall k :: rangeindex < k && k < len(p.config.Masks) ==> !p.hasMasksIgnoreFields[k] && !p.hasMasksProcessFields[k]
+//@   loop 1 invariant forall k :: 0 <= k && k <= rangeindex && (len(p.config.Masks[k].IgnoreFields) > 0 || len(p.config.Masks[k].ProcessFields) > 0) ==> p.hasMaskSpecificFieldsList
+//@   loop 1 invariant !old(p.hasMaskSpecificFieldsList) && !old(p.hasGlobalIgnoreFields) && !old(p.hasGlobalProcessFields) && !old(p.hasProcessOrIgnoreFields) && p.hasMaskSpecificFieldsList ==> exists k :: 0 <= k && k <= rangeindex && (len(p.config.Masks[k].IgnoreFields) > 0 || len(p.config.Masks[k].ProcessFields) > 0)
+//@   loop 1 invariant p.hasGlobalIgnoreFields == old(p.hasGlobalIgnoreFields) && p.hasGlobalProcessFields == old(p.hasGlobalProcessFields) && (!old(p.hasMaskSpecificFieldsList) && !old(p.hasGlobalIgnoreFields) && !old(p.hasGlobalProcessFields) && !old(p.hasProcessOrIgnoreFields) ==> p.hasProcessOrIgnoreFields == p.hasMaskSpecificFieldsList)
+//@   loop 2 invariant 0 <= masksWithSpecificFieldsLists && masksWithSpecificFieldsLists <= rangeindex#2 + 1 && rangeindex#2 < len(p.config.Masks)
+//@   loop 2 invariant masksWithSpecificFieldsLists == rangeindex#2 + 1 <==> (forall k :: 0 <= k && k <= rangeindex#2 ==> p.hasMasksIgnoreFields[k] || p.hasMasksProcessFields[k])
+//@   callee ParseNestedFields(f) (r, e)
+//@     requires npar == nadd && len(f) > 0
+//@     requires (0 <= rangeindex && rangeindex < len(p.config.Masks) && (f == p.config.Masks[rangeindex].IgnoreFields || f == p.config.Masks[rangeindex].ProcessFields)) || f == p.config.IgnoreFields || f == p.config.ProcessFields
+//@     pure
+//@     ensures e == nil ==> forall k :: 0 <= k && k < len(r) ==> len(r[k]) >= 1
+//@     set npar := npar + 1
+//@     set nglob := nglob + ite(0 <= rangeindex && rangeindex < len(p.config.Masks) && (f == p.config.Masks[rangeindex].IgnoreFields || f == p.config.Masks[rangeindex].ProcessFields), 0, 1)
+//@     set gprref := ref(r)
+//@     set gproff := off(r)
+//@     set gprlen := len(r)
+//@   callee addFieldsToTree(rt, fp, cb)
+//@     requires nadd + 1 == npar && ref(fp) == gprref && off(fp) == gproff && len(fp) == gprlen
+//@     requires rt == root && (nadd > 0 ==> ref(rt) == groot)
+//@     pure
+//@     set nadd := nadd + 1
+//@     set groot := ref(rt)
+//@   callee newFieldMasksNode() (r)
+//@     pure
+//@     ensures r != nil && fresh(r)
+
+// Start (C17: "every configured mask is compiled"; Do's preconditions).  The plugin
+// works on its own copy of the configured masks - all of them - and what Do later
+// walks (p.config.Masks) is exactly the list compileMasks handed back, compiled once.
+// Start only returns when both field-list passes succeeded (an error there ends the
+// process: a plugin that ignored it would run with half-built field lists and mask, or
+// skip, the wrong fields).  On return the per-mask flag arrays have one entry per mask
+// (Do / traverseTree / processMask require it) and the per-mask counters exist, one per
+// mask, whenever some mask has a metric of its own.
+
+//@ func (*Plugin).Start
+//@   option allow-exit yes
+//@   requires typeis(config, "*github.com/ozontech/file.d/plugin/action/mask.Config") && params != nil && params.PipelineSettings != nil && params.PipelineSettings.AvgEventSize >= 0
+//@   ghost ncm int = 0
+//@   ghost gcref int = 0
+//@   ghost gcoff int = 0
+//@   ghost gclen int = 0
+//@   ghost gfp bool = false
+//@   ghost gft bool = false
+//@   ghost gcfglen int = 0
+//@   setat "p.config.Masks = append(" gcfglen := len(p.config.Masks)
+//@   ensures ncm == 1 && ref(p.config.Masks) == gcref && off(p.config.Masks) == gcoff && len(p.config.Masks) == gclen
+//@   ensures gfp && gft
+//@   ensures len(p.hasMasksIgnoreFields) == len(p.config.Masks) && len(p.hasMasksProcessFields) == len(p.config.Masks)
+//@   ensures !old(p.hasMaskSpecificMetric) && p.hasMaskSpecificMetric ==> len(p.maskApplyCount) == len(p.config.Masks)
+//@   loop 1 invariant !old(p.hasMaskSpecificMetric) && p.hasMaskSpecificMetric ==> len(p.maskApplyCount) == len(p.config.Masks)
+//@   loop 1 invariant forall k :: 0 <= k && k <= rangeindex ==> p.config.Masks[k].MetricName == ""
+//@   loop 2 invariant forall k :: 0 <= k && k <= rangeindex#2 ==> p.config.Masks[k].DoIfChecker == nil
+//@   assert at "p.registerMetrics(params.MetricCtl)" (exists k :: 0 <= k && k < len(p.config.Masks) && p.config.Masks[k].MetricName != "") ==> p.hasMaskSpecificMetric
+//@   assert at "p.registerMetrics(params.MetricCtl)" (exists k :: 0 <= k && k < len(p.config.Masks) && p.config.Masks[k].DoIfChecker != nil) ==> p.hasMaskSpecificDoIf
+//@   callee compileMasks(ms, l) (r)
+//@     requires ncm == 0 && ms == p.config.Masks
+//@     requires len(ms) > 0 ==> freshin(ms)
+//@     requires len(ms) == gcfglen
+//@     set ncm := ncm + 1
+//@     set gcref := ref(r)
+//@     set gcoff := off(r)
+//@     set gclen := len(r)
+//@   callee gatherFieldPaths() (e)
+//@     set gfp := e == nil
+//@   callee gatherFieldMasksTree() (e)
+//@     set gft := e == nil
+//@   callee registerMetrics(c)
+//@     modifies p.maskAppliedMetric, p.config.Masks[:]
+//@   callee Desugar() (l)
+//@     pure
